@@ -61,14 +61,42 @@ theorem finalize_at_most_once (fc : Nat) (h : List (Op × Flt)) (hadm : Adm fals
   refine ⟨this, ?_⟩
   rw [this]; cases (w.objs d).finalized <;> simp
 
-/-- `finalize_prompt`: when only `_render_` calls fail (no failing size validation, no failing
-    write), no library-owned object is ever left to `RenderData.__del__`: it was finalized explicitly,
-    by the end of the operation that stopped using it. -/
+/-- `finalize_prompt`: in a strict history — in `render`/`draw`/iterator operations only `_render_`
+    calls fail; in a subclass operation on `_init_render_` *anything* may fail (padding resolution,
+    either size comparison, the renderer) — no library-owned object is ever left to
+    `RenderData.__del__`: it was finalized explicitly, by the end of the operation that stopped using
+    it. (`draw` itself calls `_init_render_(finalize=False)`, so a failing size validation *there* is
+    the one case left to `__del__` — see `finalize_once`.) -/
 theorem finalize_prompt (fc : Nat) (h : List (Op × Flt)) (hadm : Adm true h) (d : Nat) :
     let w := runHist (init fc) h
     d < w.nObjs → (w.objs d).owner = .lib → (w.objs d).viaDel = 0 := by
   intro w hd ho
   exact (inv_history true h _ (init_inv true fc) hadm).1.objE rfl d hd ho
+
+/-- `finalize_prompt_init`: `_init_render_(…, finalize=True)` called by a subclass operation — for every
+    flag combination, every state and every fault (in padding resolution, in the width or the height
+    comparison of the size validation, in the renderer, or none): at the moment the call returns or
+    raises — before any garbage collection — the data object it created has been finalized, exactly
+    once, by library code, and not through `__del__`. -/
+theorem finalize_prompt_init (it cs asc rp : Bool) (f : Flt) (w : World) (hadm : Admissible inj f) :
+    let w' := (run sem (initRenderOpP it true cs asc rp) f w).1
+    (w'.objs w.nObjs).finalized = true ∧ (w'.objs w.nObjs).finCalls = 1 ∧
+    (w'.objs w.nObjs).libFin = 1 ∧ (w'.objs w.nObjs).viaDel = 0 ∧ (w'.objs w.nObjs).usedAfter = 0 := by
+  intro w'
+  let Q : World → Prop := fun v =>
+    (v.objs w.nObjs).finalized = true ∧ (v.objs w.nObjs).finCalls = 1 ∧
+    (v.objs w.nObjs).libFin = 1 ∧ (v.objs w.nObjs).viaDel = 0 ∧ (v.objs w.nObjs).usedAfter = 0
+  have hwp : wp sem inj (initRenderOpP it true cs asc rp) f.isSome (fun _ v => Q v) (fun _ _ v => Q v) w := by
+    unfold initRenderOpP initRender
+    wpgo
+    all_goals simp [Q, finalizeW, apply]
+  have := wp_sound sem inj _ f _ _ w hadm hwp
+  show Q w'
+  generalize hr : run sem (initRenderOpP it true cs asc rp) f w = r at this
+  have : w' = r.1 := by simp [w', hr]
+  rw [this]
+  obtain ⟨v, f', r'⟩ := r
+  cases r' <;> exact ‹Post _ _ _›
 
 /-- `caller_kept`: data handed in with `finalize=False` (owner = caller) is never finalized by library
     code -/
@@ -224,7 +252,8 @@ theorem finalize_idem_run (d : Nat) (b b' : By) (f f' : Flt) (w : World) :
 
 theorem generated_defaults :
     Generated.initRenderFinalizeDefault = true ∧ Generated.initRenderIterationDefault = false ∧
-    Generated.initRenderCheckSizeDefault = false ∧ Generated.fromRenderDataFinalizeDefault = true ∧
+    Generated.initRenderCheckSizeDefault = false ∧ Generated.initRenderAllowScrollDefault = false ∧
+    Generated.fromRenderDataFinalizeDefault = true ∧
     Generated.drawAnimateDefault = true ∧ Generated.drawCheckSizeDefault = true ∧
     Generated.drawLoopsDefault < 0 ∧ 0 < Generated.drawCacheDefault ∧
     Generated.iterLoopsDefault = 1 ∧ 0 < Generated.iterCacheDefault ∧
@@ -249,11 +278,19 @@ def sampleHist : List (Op × Flt) :=
 example : Adm false sampleHist := by
   intro x hx
   simp only [sampleHist, List.mem_cons, List.not_mem_nil, or_false] at hx
-  rcases hx with h | h | h | h | h | h | h | h | h <;> subst h <;> simp [Admissible, injS, inj]
+  rcases hx with h | h | h | h | h | h | h | h | h <;> subst h <;> simp [Admissible, injOp, isDirect, injS, inj]
+
+/-- strict histories may fail anything inside a subclass operation on `_init_render_` -/
+example : Adm true [(Op.initRender false true true false true, some (Target.validate, 1, Exc.sizeError)),
+    (Op.initRender true true true true true, some (Target.resolve, 0, Exc.boom)),
+    (Op.initRender false false true false false, some (Target.render, 0, Exc.keyboardInterrupt))] := by
+  intro x hx
+  simp only [List.mem_cons, List.not_mem_nil, or_false] at hx
+  rcases hx with h | h | h <;> subst h <;> simp [Admissible, injOp, isDirect, injS, inj]
 
 example : Adm true [(Op.draw true false 2 .on 0, some (Target.render, 1, Exc.boom)), (Op.render, none)] := by
   intro x hx
   simp only [List.mem_cons, List.not_mem_nil, or_false] at hx
-  rcases hx with h | h <;> subst h <;> simp [Admissible, injS, inj]
+  rcases hx with h | h <;> subst h <;> simp [Admissible, injOp, isDirect, injS, inj]
 
 end TIV.C10
